@@ -268,3 +268,128 @@ theorem sumLen2_eq (ps : List (List (List β))) : sumLen2 ps = (ps.map List.flat
 end lens
 
 end GeomV.C04
+
+/-! ## the judge's decidable checks are the semantic specification -/
+namespace GeomV.C04
+open GeomV GeomV.C04.Spec
+attribute [local instance] infOfBounded
+
+section checkers
+variable {α : Type} [LinearOrder α] [BoundedOrder α]
+
+theorem sharePointB_iff (a b : Box α) : sharePointB a b = true ↔ SharePoint a b := by
+  simp only [sharePointB, Bool.and_eq_true, memB_iff]
+  constructor
+  · intro h; exact ⟨lo a b, h.1, h.2⟩
+  · rintro ⟨p, ⟨a1, a2, a3, a4⟩, ⟨b1, b2, b3, b4⟩⟩
+    exact ⟨⟨le_max_left _ _, le_trans (max_le a1 b1) a2, le_max_left _ _, le_trans (max_le a3 b3) a4⟩,
+           ⟨le_max_right _ _, le_trans (max_le a1 b1) b2, le_max_right _ _, le_trans (max_le a3 b3) b4⟩⟩
+
+theorem box_ext {r s : Box α} (h1 : r.mn.x = s.mn.x) (h2 : r.mn.y = s.mn.y) (h3 : r.mx.x = s.mx.x)
+    (h4 : r.mx.y = s.mx.y) : r = s := by
+  obtain ⟨⟨a, b⟩, ⟨c, d⟩⟩ := r
+  obtain ⟨⟨a', b'⟩, ⟨c', d'⟩⟩ := s
+  simp at h1 h2 h3 h4; subst h1 h2 h3 h4; rfl
+
+/-- two boxes with the same points, one of them with a point, are equal -/
+theorem eq_of_same_points (r s : Box α) (hr : emptyB r = false) (h : ∀ p, mem p r ↔ mem p s) : r = s := by
+  have hs : emptyB s = false := by
+    obtain ⟨hx, hy⟩ := (not_emptyB r).1 hr
+    obtain ⟨s1, s2, s3, s4⟩ := (h r.mn).1 ⟨le_refl _, hx, le_refl _, hy⟩
+    rw [not_emptyB]; exact ⟨le_trans s1 s2, le_trans s3 s4⟩
+  obtain ⟨a1, a2, a3, a4⟩ := (sub_iff_of_nonempty r s hr).1 (fun p hp => (h p).1 hp)
+  obtain ⟨b1, b2, b3, b4⟩ := (sub_iff_of_nonempty s r hs).1 (fun p hp => (h p).2 hp)
+  exact box_ext (le_antisymm b1 a1) (le_antisymm b2 a2) (le_antisymm a3 b3) (le_antisymm a4 b4)
+
+/-- `tightB` gives the invariant -/
+theorem inv_of_tightB (S : List (Pt α)) (b : Box α) (h : tightB S b = true) : Inv S b := by
+  simp only [tightB, Bool.and_eq_true, List.all_eq_true, List.any_eq_true, decide_eq_true_eq, memB_iff] at h
+  obtain ⟨⟨⟨⟨hc, ⟨w1, m1, l1⟩⟩, ⟨w2, m2, l2⟩⟩, ⟨w3, m3, l3⟩⟩, ⟨w4, m4, l4⟩⟩ := h
+  exact ⟨hc, Or.inr ⟨w1, m1, le_antisymm l1 (hc w1 m1).1⟩, Or.inr ⟨w2, m2, le_antisymm l2 (hc w2 m2).2.2.1⟩,
+    Or.inr ⟨w3, m3, le_antisymm (hc w3 m3).2.1 l3⟩, Or.inr ⟨w4, m4, le_antisymm (hc w4 m4).2.2.2 l4⟩⟩
+
+/-- the "smallest box containing" form of `IsEnvelope` for a non-empty point list -/
+def Smallest (S : List (Pt α)) (b : Box α) : Prop :=
+  (∀ v ∈ S, mem v b) ∧ ∀ c : Box α, (∀ v ∈ S, mem v c) → Sub b c
+
+theorem tightB_iff (v : Pt α) (vs : List (Pt α)) (b : Box α) :
+    tightB (v :: vs) b = true ↔ Smallest (v :: vs) b := by
+  constructor
+  · intro h
+    have := (inv_of_tightB _ _ h).isEnvelope
+    simpa [IsEnvelope, Smallest] using this
+  · rintro ⟨hc, hmin⟩
+    have hi : Inv (v :: vs) (Box.new.extendPoints (v :: vs)) := by
+      simpa using Inv.new.extendPoints (v :: vs)
+    have hb : emptyB b = false := by
+      obtain ⟨h1, h2, h3, h4⟩ := hc v (by simp)
+      rw [not_emptyB]; exact ⟨le_trans h1 h2, le_trans h3 h4⟩
+    obtain ⟨c1, c2, c3, c4⟩ := (sub_iff_of_nonempty b _ hb).1 (hmin _ hi.cont)
+    simp only [tightB, Bool.and_eq_true, List.all_eq_true, List.any_eq_true, decide_eq_true_eq, memB_iff]
+    refine ⟨⟨⟨⟨hc, ?_⟩, ?_⟩, ?_⟩, ?_⟩
+    · rcases hi.minx with e | ⟨w, hw, e⟩
+      · exact ⟨v, by simp, le_trans le_top (by rw [← e]; exact c1)⟩
+      · exact ⟨w, hw, by simp only at e; rw [e]; exact c1⟩
+    · rcases hi.miny with e | ⟨w, hw, e⟩
+      · exact ⟨v, by simp, le_trans le_top (by rw [← e]; exact c2)⟩
+      · exact ⟨w, hw, by simp only at e; rw [e]; exact c2⟩
+    · rcases hi.maxx with e | ⟨w, hw, e⟩
+      · exact ⟨v, by simp, le_trans (by rw [← e]; exact c3) bot_le⟩
+      · exact ⟨w, hw, by simp only at e; rw [e]; exact c3⟩
+    · rcases hi.maxy with e | ⟨w, hw, e⟩
+      · exact ⟨v, by simp, le_trans (by rw [← e]; exact c4) bot_le⟩
+      · exact ⟨w, hw, by simp only at e; rw [e]; exact c4⟩
+
+theorem isEnvelopeB_iff (vs : List (Pt α)) (b : Box α) : isEnvelopeB vs b = true ↔ IsEnvelope vs b := by
+  cases vs with
+  | nil => simp [isEnvelopeB, IsEnvelope]
+  | cons v vs => simpa [isEnvelopeB, IsEnvelope, Smallest] using tightB_iff v vs b
+
+/-- containing the extreme corners of `a` is containing `a` -/
+theorem corners_mem_iff (a c : Box α) : (∀ v ∈ corners a, mem v c) ↔ Sub a c := by
+  simp only [corners]
+  cases ha : emptyB a with
+  | true => simp [sub_of_empty a c ha]
+  | false =>
+    obtain ⟨hx, hy⟩ := (not_emptyB a).1 ha
+    rw [sub_iff_of_nonempty a c ha]
+    simp only [Bool.false_eq_true, if_false, List.mem_cons, List.not_mem_nil, or_false, forall_eq_or_imp, forall_eq, mem]
+    constructor
+    · rintro ⟨⟨h1, _, h3, _⟩, ⟨_, h6, _, h8⟩⟩; exact ⟨h1, h3, h6, h8⟩
+    · rintro ⟨h1, h2, h3, h4⟩
+      exact ⟨⟨h1, le_trans hx h3, h2, le_trans hy h4⟩, ⟨le_trans h1 hx, h3, le_trans h2 hy, h4⟩⟩
+
+theorem isJoin_iff_smallest (a b j : Box α) : IsJoin a b j ↔ Smallest (corners a ++ corners b) j := by
+  simp only [IsJoin, Smallest, List.mem_append, or_imp, forall_and, corners_mem_iff]
+  constructor
+  · rintro ⟨h1, h2, h3⟩; exact ⟨⟨h1, h2⟩, fun c hc => h3 c hc.1 hc.2⟩
+  · rintro ⟨⟨h1, h2⟩, h3⟩; exact ⟨h1, h2, fun c ha hb => h3 c ⟨ha, hb⟩⟩
+
+theorem isJoinB_iff (a b j : Box α) : isJoinB a b j = true ↔ IsJoin a b j := by
+  rw [isJoin_iff_smallest]
+  simp only [isJoinB]
+  cases hcs : corners a ++ corners b with
+  | cons c cs => exact tightB_iff c cs j
+  | nil =>
+    have ha : emptyB a = true := by
+      cases h : emptyB a with
+      | true => rfl
+      | false => simp [corners, h] at hcs
+    simp only [Smallest, List.not_mem_nil, false_imp_iff, implies_true, true_and, forall_const]
+    constructor
+    · intro hj c; exact sub_of_empty j c hj
+    · intro h
+      -- an empty box exists, so `⊥ < ⊤`, so `NewBounds()` has no point
+      have hne : (⊥ : α) < ⊤ := by
+        simp only [emptyB, Bool.not_eq_true', Bool.and_eq_false_iff, decide_eq_false_iff_not, not_le] at ha
+        rcases ha with ha | ha
+        · exact lt_of_le_of_lt bot_le (lt_of_lt_of_le ha le_top)
+        · exact lt_of_le_of_lt bot_le (lt_of_lt_of_le ha le_top)
+      rw [emptyB_iff]
+      intro p hp
+      obtain ⟨h1, h2, _, _⟩ := h Box.new p hp
+      simp only [Box.new, pinf_eq, ninf_eq] at h1 h2
+      exact absurd (le_trans h1 h2) (not_le.mpr hne)
+
+end checkers
+end GeomV.C04
